@@ -27,7 +27,7 @@ CLASSES_ALL = ["TaskPool", "SimpleTaskPool", "PlusPool", "SimplePlus"]
 BUDGET = {
     "C16": {"quick": 40, "thorough": 200},          # extra seeded (class, width, pool name) sweeps beside the fixed grid
     "C17": {"quick": 1000, "thorough": 6000},       # random scripts (beside the complete option-subset sweep)
-    "C18": {"quick": 700, "thorough": 4000},
+    "C18": {"quick": 560, "thorough": 4000},
     "C19": {"quick": 140, "thorough": 700},
 }
 DEADLINE = {"quick": 420, "thorough": 2400}      # whole sweep of one check; exceeded = harness trouble (exit 2)
@@ -261,7 +261,8 @@ def items_of(case):
     return None
 
 
-def shrink(prop, f, budget=40):
+def shrink(prop, f, budget=None):
+    budget = budget or (10 if prop == "C19" else 40)      # a failing C19 case costs a bounded wait of seconds per try
     case = f["case"]
     key = items_of(case)
     want = fail_key(f)
@@ -296,8 +297,13 @@ def trigger_holds(k, f):
     t = k.get("trigger", "any")
     if t == "any":
         return True
-    if isinstance(t, dict) and "line_matches" in t:
-        return bool(re.search(t["line_matches"], str(f.get("line", ""))))
+    if isinstance(t, dict):
+        ok = True
+        if "cls" in t:          # the failing case serves exactly this (witness) class
+            ok = ok and f.get("case", {}).get("cls") == t["cls"]
+        if "line_matches" in t:
+            ok = ok and bool(re.search(t["line_matches"], str(f.get("line", ""))))
+        return ok and bool(t)
     return False
 
 
@@ -435,8 +441,12 @@ RULES = {
            "and arbitrary printable lines, simultaneous lines, waiting commands with queued lines, blank lines; every reply "
            "compared with a fresh session's reply on a twin pool; the Lean session model follows the event trace.  "
            "evaluations = lines sent; distinct non-trivial = distinct non-blank (class, line)",
-    "C19": "seeded op sequences connect(raw|cli)/command/leave(close|eof|blank|exit)/stop/probe over real TCP and Unix "
-           "sockets, compared after every op with the Lean life-cycle model.  evaluations = ops; distinct non-trivial = "
+    "C19": "seeded op sequences over real TCP and Unix sockets, compared after every op with the Lean life-cycle model: "
+           "connect (raw stream client | bundled CLI client subprocess | mute = connected, no handshake line), command, "
+           "hang (a waiting command - until-closed / gather-and-close - in flight while other clients must be answered "
+           "within the bounded wait), release, leave (close | eof | blank line | exit | in the middle of the handshake: "
+           "garbage, JSON without width, partial line), stop, probe; one case in four ends with a client that leaves during "
+           "its handshake as the last client; the cyclic GC is off during a case.  evaluations = ops; distinct non-trivial = "
            "distinct sequences with at least one connection attempt and a stop",
 }
 COMMON = ["theorems are about the hand-written Lean model lean/Taskpool/Model/Control*; the member table is regenerated from "
